@@ -42,8 +42,8 @@ Definition bad := {| c_cmd := [101%N]; c_out := []; c_err := []; c_status := 3 |
 Definition defs := [ {| td_name := 0; td_deps := []; td_lits := [0]; td_globs := []; td_cmds := [bad] |} ].
 Definition s0 := apply_op_i (init_i (fun _ => None)) (Edit 0 (Some 1)).
 Example C09_nonvacuous :
-  let '(s1, o1) := invoke (fun _ l => l) defs [] s0 {| f_quiet := false; f_json := true; f_force := false; f_show := false; f_vars := false; f_clean := false |} [0] in
-  let '(_, o2) := invoke (fun _ l => l) defs [] s1 {| f_quiet := true; f_json := false; f_force := false; f_show := false; f_vars := false; f_clean := false |} [0] in
+  let '(s1, o1) := invoke (fun _ l => l) defs [] s0 {| f_quiet := false; f_json := true; f_force := false; f_show := false; f_vars := false; f_clean := false; f_debug := false |} [0] in
+  let '(_, o2) := invoke (fun _ l => l) defs [] s1 {| f_quiet := true; f_json := false; f_force := false; f_show := false; f_vars := false; f_clean := false; f_debug := false |} [0] in
   ob_exit o1 = 1 /\ ob_error o1 = Some (ECommandFailed 0 [101%N] 3) /\ ob_exit o2 = 1 /\ ob_executed o2 = [0].
 Proof. vm_compute. repeat split; reflexivity. Qed.
 Print Assumptions C09_nonvacuous.
@@ -53,7 +53,7 @@ Definition defs_c := [ {| td_name := 2; td_deps := []; td_lits := []; td_globs :
                        {| td_name := 0; td_deps := []; td_lits := []; td_globs := []; td_cmds := [] |} ].
 Example C09_clean_task_fails :
   let '(_, o) := invoke (fun _ l => l) defs_c [] (init_i (fun _ => None))
-                   {| f_quiet := true; f_json := false; f_force := false; f_show := false; f_vars := false; f_clean := true |} [0] in
+                   {| f_quiet := true; f_json := false; f_force := false; f_show := false; f_vars := false; f_clean := true; f_debug := false |} [0] in
   ob_exit o = 1 /\ ob_error o = Some (ECommandFailed 2 [101%N] 3) /\ ob_executed o = [2].
 Proof. vm_compute. repeat split; reflexivity. Qed.
 Print Assumptions C09_clean_task_fails.
